@@ -20,7 +20,12 @@ class Handle:
     def __init__(self, f, writing, binary, encoding, translate=False):
         self.f = f; self.writing = writing; self.binary = binary; self.encoding = encoding
         self.translate = translate        # text mode without newline="": universal newlines on reading
-    def write(self, x): self.f.chunks.append(x); return 1
+    def write(self, x):
+        if isinstance(x, EncodedPayload):
+            if not self.binary: raise TypeError("write() argument must be str, not bytes")
+            self.f.text_encoding = x.encoding        # bytes that are text in that encoding
+            x = x.text
+        self.f.chunks.append(x); return 1
     def read(self):
         return TextPayload(self.f.chunks, self.translate) if not self.binary else list(self.f.chunks)
     def __enter__(self): return self
@@ -34,6 +39,13 @@ class TextPayload(str):
         s = str.__new__(cls, "<text payload>"); s.chunks = list(chunks)
         s.translated = bool(translated) or any(getattr(c, "translated", False) for c in chunks)
         return s
+
+    def encode(self, encoding="utf-8", errors="strict"):
+        return EncodedPayload(self, encoding)
+
+class EncodedPayload:
+    """the bytes a text payload encodes to: the text and the encoding (str.encode writes a BOM where the encoding has one)"""
+    def __init__(self, text, encoding): self.text = text; self.encoding = encoding
 
 def universal_newlines(v):
     """a text value after universal-newline translation (CR and CR LF -> LF)"""
@@ -53,6 +65,10 @@ class FS:
             enc = None if binary else kwargs.get("encoding")
             if "w" in mode:
                 f = File(codec, binary, enc); self.files[path] = f
+                # CPython: a text-mode wrapper on a stream that cannot seek (BZ2File / LZMAFile open for writing) starts its
+                # UTF-16 / UTF-32 encoder past the byte-order mark, so the file has none and cannot be decoded as "utf-16" again
+                # (GzipFile and plain files can seek and get the mark); observed on the real build, CPython 3.12
+                f.nobom = (not binary) and codec in ("bz2", "xz") and _norm(enc or "utf-8") in ("utf-16", "utf-32")
                 self.log.append(("w", path, codec, binary, enc))
                 return Handle(f, True, binary, enc)
             if path not in self.files:
@@ -64,6 +80,8 @@ class FS:
                 raise OSError(f"file written with codec {f.codec!r} read with codec {codec!r}")
             if not binary and not f.binary and f.encoding != enc:
                 raise UnicodeDecodeError(enc or "utf-8", b"", 0, 1, f"file written as {f.encoding!r} read as {enc!r}")
+            if not binary and getattr(f, "nobom", False):
+                raise UnicodeError(f"{_norm(enc).upper()} stream does not start with BOM")
             return Handle(f, False, binary, enc, translate)
         return _open
 
@@ -173,7 +191,9 @@ def install(fs, W, util, df_mod, lod_mod):
         if len(blobs) != 1 or blobs[0].kind != "arrowcsv": raise ValueError("CSV parse error")
         b = blobs[0]
         srcfile = getattr(source, "f", None)
-        fenc = srcfile.encoding if srcfile is not None and not srcfile.binary else "utf-8"     # Arrow itself writes UTF-8
+        fenc = (srcfile.encoding if srcfile is not None and not srcfile.binary else
+                getattr(srcfile, "text_encoding", "utf-8"))     # Arrow itself writes UTF-8; bytes written by hand carry their encoding
+        if getattr(srcfile, "nobom", False): raise UnicodeError(f"{_norm(fenc).upper()} stream does not start with BOM")
         if _norm(fenc) != _norm(read_options.encoding): raise UnicodeDecodeError(read_options.encoding, b"", 0, 1, "wrong encoding")
         if b.opts["delimiter"] is not parse_options.delimiter and b.opts["delimiter"] != parse_options.delimiter:
             raise ValueError("CSV parse error: delimiter mismatch")
